@@ -18,6 +18,7 @@ import (
 	"path/filepath"
 	"strconv"
 	"strings"
+	"sync/atomic"
 	"time"
 
 	"github.com/go-git/go-billy/v6/osfs"
@@ -164,6 +165,8 @@ func chunkWrite(r *rand.Rand, w io.Writer, b []byte) error {
 
 type hashed interface{ Hash() plumbing.Hash }
 
+var doubleCloses atomic.Int64 // second Close calls issued by writeVia (added to the evidence counter at the end)
+
 // entry points that write a loose object into a filesystem storage.
 var entryPoints = []string{"set-storer-object", "set-foreign-memobj", "raw-writer", "raw-writer-chunked", "lazy-writer", "set-large-threshold-storage"}
 
@@ -212,6 +215,10 @@ func writeVia(ep string, st *filesystem.Storage, r *rand.Rand, cs *objCase) (plu
 		if err := w.Close(); err != nil {
 			return plumbing.ZeroHash, err
 		}
+		if cs.idx%4 == 1 {
+			_ = w.Close() // a deferred Close after the explicit one must be harmless
+			doubleCloses.Add(1)
+		}
 		h, ok := w.(hashed)
 		if !ok {
 			return plumbing.ZeroHash, fmt.Errorf("RawObjectWriter result has no Hash()")
@@ -232,6 +239,10 @@ func writeVia(ep string, st *filesystem.Storage, r *rand.Rand, cs *objCase) (plu
 		}
 		if err := w.Close(); err != nil {
 			return plumbing.ZeroHash, err
+		}
+		if cs.idx%4 == 2 {
+			_ = w.Close()
+			doubleCloses.Add(1)
 		}
 		h, ok := w.(hashed)
 		if !ok {
@@ -670,6 +681,9 @@ func run(c *vf.Ctx) {
 		// ---- Worktree.Add (files and symlinks) ----
 		runWorktreeAdd(c, g, cases, fname, of)
 
+		// ---- writers closed twice and writers open at the same time ----
+		runOverlap(c, g, fname, of)
+
 		// ---- git writes, go-git reads ----
 		runGitWrites(c, g, cases, fname, of)
 	}
@@ -677,12 +691,16 @@ func run(c *vf.Ctx) {
 	s0 := cases[len(cases)-1]
 	c.Sample(map[string]any{"type": s0.typ.String(), "size": len(s0.content), "git_id_last_format": s0.gitID})
 	c.Sample(map[string]any{"type": cases[3].typ.String(), "content": vf.Q(cases[3].content), "git_id_last_format": cases[3].gitID})
+	c.Count("double_closes", int(doubleCloses.Load()))
 	c.Extra("git_invocations", gitx.Calls.Load())
 	c.Floor("id comparisons", c.Counter("id_comparisons"), c.N(8000, 60000))
 	c.Floor("git reads of go-git-written loose objects", c.Counter("git_reads_of_gogit_objects"), c.N(4000, 30000))
 	c.Floor("go-git reads of git-written loose objects", c.Counter("gogit_reads_of_git_objects"), c.N(700, 10000))
 	c.Floor("worktree adds", c.Counter("worktree_adds"), c.N(200, 1000))
 	c.Floor("entry points", c.SeenCount("entry_points"), 14)
+	c.Floor("second Close calls on loose-object writers", c.Counter("double_closes"), c.N(200, 1500))
+	c.Floor("pairs of writers open at the same time", c.Counter("overlapping_writer_pairs"), c.N(70, 300))
+	c.Floor("distinct overlapping entry-point pairs", c.SeenCount("overlap_pairs"), 10)
 	c.Assume("git 2.39.5 cat-file/hash-object/fsck are the reference; loose object format and hashing are unchanged between 2.39 and 2.54")
 	c.Assume("a MemoryObject built without a hasher and stored in a sha256 repository is within scope ('every entry point'): SetEncodedObject must report the id under which the object is stored")
 	c.Assume("worktree adds run without filters (no autocrlf / attributes), so git hash-object --no-filters is the reference for Worktree.Add")
